@@ -393,13 +393,19 @@ def case_prim(case):
     table = dict(TARGETS[lang])
     if lang == "scala" and tname not in table:
         # unsigned aliases: read `type UByte = Byte` from the file the back end generates for a field of this type
-        pd = ir.parsed_data(structs=[ir.struct("S", [ir.field("f", ir.special(prim))])])
-        ok, w, _ = bharness.generate(I, lang, pd)
         import re
-        m = re.search(r"^type %s = (\w+)$" % re.escape(tname), bharness.concrete_text(w), re.M)
-        if not m:
-            res["violations"].append({"kind": "alias-undefined", "target": tname})
-            return finish_case(I, res)
+        m = None
+        t0_ = ir.special(prim)
+        # the alias must be defined wherever the type occurs: every container position, key position included
+        for posname, ty in (("field", t0_), ("vec", ir.vec(ir.special(prim))), ("option", ir.option(ir.special(prim))), ("map_value", ir.hashmap(ir.special("String"), ir.special(prim))),
+                            ("map_key", ir.hashmap(ir.special(prim), ir.special("String"))), ("array", ir.array(ir.special(prim), 2)), ("generic_arg", ir.generic("Wrap", [ir.special(prim)])),
+                            ("vec_map_key", ir.vec(ir.hashmap(ir.special(prim), ir.special("Bool")))), ("option_vec", ir.option(ir.vec(ir.special(prim))))):
+            pd = ir.parsed_data(structs=[ir.struct("S", [ir.field("f", ty)])])
+            ok, w, _ = bharness.generate(I, lang, pd)
+            m = re.search(r"^type %s = (\w+)$" % re.escape(tname), bharness.concrete_text(w), re.M)
+            if not m:
+                res["violations"].append({"kind": "alias-undefined", "target": tname, "position": posname})
+                return finish_case(I, res)
         res["alias"] = "%s = %s" % (tname, m.group(1))
         tname = m.group(1)
     if (lang, tname) in UNDECIDED:
@@ -684,6 +690,20 @@ POOL_SRC = {"u32": "u32", "string": "String", "bool": "bool", "user": "Other", "
 def native_b(nat, gname, case, v):
     lang = case[0]
     cfg = dict(bharness.DEFAULT_CFG.get(lang, {}))
+    if gname == "primitive" and v.get("kind") == "alias-undefined":
+        t = RUST_SRC[case[1]]
+        ty = {"field": "%s", "vec": "Vec<%s>", "option": "Option<%s>", "map_value": "HashMap<String, %s>", "map_key": "HashMap<%s, String>", "array": "[%s; 2]", "generic_arg": "Wrap<%s>",
+              "vec_map_key": "Vec<HashMap<%s, bool>>", "option_vec": "Option<Vec<%s>>"}[v.get("position", "field")] % t
+        src = "#[typeshare]\npub struct S { pub f: %s }\n" % ty
+        r = nat.ask({"op": "generate", "lang": lang, "files": [{"source": src}], "config": cfg})
+        out = r.get("out", {}).get("", None)
+        if out is None:
+            return None, str(r)[:200], None
+        tgt = v.get("target", "")
+        import re as _re2
+        if tgt in out and not _re2.search(r"^type %s = " % _re2.escape(tgt), out, _re2.M):
+            return True, "%s uses `%s` for `%s` without defining it" % (lang, tgt, ty), {"source": src, "lang": lang, "config": cfg, "needle": tgt}
+        return False, "real output defines %s or does not use it" % tgt, None
     if gname == "primitive":
         src = "#[typeshare]\npub type A = Vec<%s>;\n" % RUST_SRC[case[1]]
         r = nat.ask({"op": "generate", "lang": lang, "files": [{"source": src}], "config": cfg})
